@@ -28,6 +28,14 @@ def gen(rng, sid, max_payload, ndg):
             ident = rng.choice([0, 1, 7, 65535, rng.randrange(65536)])
             src = rng.choice([0x0a000001, 0x0a000002, 0xc0a80001, 0xffffffff, 1])
             dst = rng.choice([0x0a000002, 0x0a000003, 0xc0a80001, 2])
+            if dgs and rng.random() < 0.5:
+                # a second datagram in flight that a sloppy stream key would confuse with the first one: same id and an
+                # address pair with the same XOR / the same sum / one address in common
+                f0 = dgs[0][0]
+                ident = f0['id']
+                m = rng.choice([1, 4, 0x0100, 0xff, rng.randrange(1, 1 << 32)])
+                src, dst = rng.choice([(f0['src'] ^ m, f0['dst'] ^ m), ((f0['src'] + m) & 0xffffffff, (f0['dst'] - m) & 0xffffffff),
+                                       (f0['src'], f0['dst'] ^ m), (f0['src'] ^ m, f0['dst']), (f0['dst'], f0['src'] ^ m)])
             if src == dst:
                 continue
             key = (ident, min(src, dst), max(src, dst))
